@@ -249,7 +249,9 @@ Definition vacuum_rows (cfg : KvProto.cfg) (h : rhandle) (before : time) : rhand
          | None => hh
          end) (h_tree h) h.
 
-Definition tbl_vacuum (cfg : KvProto.cfg) (corder : list name) (tb : table) (before : time) : prog row table :=
+(* Vacuum installs the committed clone as the table's tree BEFORE it deletes history, so the
+   table holds it also when the deletion then fails; the result carries the deletion's error *)
+Definition tbl_vacuum (cfg : KvProto.cfg) (corder : list name) (tb : table) (before : time) : prog row (table * option Z) :=
   let h1 := vacuum_rows cfg (tb_h tb) before in
   let h2 := kv_remove_tombstones h1 before in
   bind (commit corder h2) (fun '(h3, r) =>
@@ -257,18 +259,20 @@ Definition tbl_vacuum (cfg : KvProto.cfg) (corder : list name) (tb : table) (bef
     | CFail e => Fail e
     | COk _ =>
         let tb' := {| tb_h := h3; tb_tx := tb_tx tb; tb_ncols := tb_ncols tb; tb_ro := tb_ro tb |} in
-        bind (delete_historic cfg h3 before) (fun _ => Ret tb')
+        bind (catch (delete_historic cfg h3 before)) (fun res =>
+          Ret (tb', match res with inl _ => None | inr e => Some e end))
     end).
 
-(* Vacuum at the level of a bare handle (what s3db.Vacuum does to table.Tree.Root); the handle
-   is replaced by the vacuumed clone only after its commit succeeded *)
-Definition kv_vacuum (cfg : KvProto.cfg) (corder : list name) (h : rhandle) (before : time) : prog row rhandle :=
+(* Vacuum at the level of a bare handle (what s3db.Vacuum does to table.Tree.Root) *)
+Definition kv_vacuum (cfg : KvProto.cfg) (corder : list name) (h : rhandle) (before : time) : prog row (rhandle * option Z) :=
   let h1 := vacuum_rows cfg h before in
   let h2 := kv_remove_tombstones h1 before in
   bind (commit corder h2) (fun '(h3, r) =>
     match r with
     | CFail e => Fail e
-    | COk _ => bind (delete_historic cfg h3 before) (fun _ => Ret h3)
+    | COk _ =>
+        bind (catch (delete_historic cfg h3 before)) (fun res =>
+          Ret (h3, match res with inl _ => None | inr e => Some e end))
     end).
 
 (* ---- connection attributes (S3DBConn) ---- *)
